@@ -194,13 +194,26 @@ def chk_single(case, note):
             y = np.nextafter(y, np.float32(1000.0 if case["k0"] > 0 else -1000.0))
         for k in range(25):
             if abs(float(y)) <= 90.0:
-                for what, arg in (("numpy.float32", y), ("numpy.float64", np.float64(y))):
+                import decimal
+                import fractions
+                y16 = np.float16(y)
+                for what, arg in (("numpy.float32", y), ("numpy.float64", np.float64(y)), ("numpy.float16", y16),
+                                  ("decimal.Decimal", decimal.Decimal(float(y))), ("fractions.Fraction", fractions.Fraction(float(y)))):
+                    if what == "numpy.float16":
+                        if abs(float(y16)) > 90.0:
+                            continue
+                        exact = float(y16)
+                    else:
+                        exact = float(y)
                     r = call(f, arg)
-                    ok = cpr.NL_set(float(y))
+                    ok = cpr.NL_set(exact)
                     n += 1
+                    if what in ("decimal.Decimal", "fractions.Fraction") and r[0] == "raise" and r[1] in ("TypeError", "RuntimeError"):
+                        continue   # exact rational types are not promised by the signature: refusing them is fine, a wrong answer is not
                     if r[0] != "ok" or isinstance(r[1], bool) or int(r[1]) != r[1] or int(r[1]) not in ok:
+                        y = np.float32(exact) if what == "numpy.float16" else y
                         return "[%s] cprNL(%s(%r)) -> %r; the latitude is exactly %r, DO-260B NL = %s, cprNL of the same value as a Python float = %r" % (
-                            name, what, float(y), r, float(y), sorted(ok), call(f, float(y)))
+                            name, what, exact, r, exact, sorted(ok), call(f, exact))
             y = np.nextafter(y, np.float32(1000.0))
     note.evals = n
     note.cls("single-precision-neighbourhood")
@@ -233,7 +246,7 @@ LEGS = [
     variants.first_use_leg(first_jobs),
     volume.leg(vol_step, 140000, 1300000, "140 000 (thorough: 1.3 million per process) distinct latitudes through cprNL in one process"),
     Leg("single_precision", chk_single, enum=enum_single, exhaustive=False,
-        doc="numpy.float32 / float64 scalar latitudes: the 600 single-precision neighbours of every transition, 0, 87, 90, judged at their exact value"),
+        doc="numpy.float16 / float32 / float64 scalars, Decimal and Fraction latitudes: the 600 single-precision neighbours of every transition, 0, 87, 90, judged at their exact value"),
     Leg("grid", chk_grid, enum=enum_grid, exhaustive=True, doc="full latitude grid, both implementations, evenness and monotonicity"),
     Leg("neighbourhoods", chk_nbh, enum=enum_nbh, exhaustive=True, doc="ulp- to 2e-3-neighbourhoods of 58 transitions, 0, 87, 90"),
     Leg("floats", chk_float, strategy=s_lat, quick=20000, thorough=600000, doc="Hypothesis floats, transition-biased"),
